@@ -53,6 +53,7 @@ const (
 	WantTrue                // bool result true
 	WantFalse               // bool result false
 	WantAnyReturn
+	WantFailure // error result non-nil
 )
 
 // VPath is a path together with the virtual fact implied by the wanted outcome.
@@ -106,6 +107,20 @@ func (e *Engine) Select(fn *ssa.Function, want Want) (sel []VPath, unknown []*Pa
 		switch want {
 		case WantAnyReturn:
 			sel = append(sel, VPath{Path: p})
+		case WantFailure:
+			if lastErrIndex(fn) < 0 {
+				continue
+			}
+			o, ct := p.ErrorOutcome()
+			switch o {
+			case Failure:
+				sel = append(sel, VPath{Path: p})
+			case Delegated:
+				f := Fact{Atom: simplify(mk("eq", "", nil, ct, mk("const", "nil", nil))), Pol: false, Virtual: true}
+				sel = append(sel, VPath{Path: p, Extra: []Fact{f}})
+			case Unknown:
+				unknown = append(unknown, p)
+			}
 		case WantSuccess:
 			if lastErrIndex(fn) < 0 {
 				sel = append(sel, VPath{Path: p})
